@@ -1377,4 +1377,401 @@ theorem C16_reach_blank (cnum snum mnum unum tnum : ObjId → Int) (strans : Obj
     Reach (St.blank cnum snum mnum unum tnum strans) :=
   ⟨C16_contain_blank _ _ _ _ _ _, C16_linked_blank _ _ _ _ _ _, fun d hd => by simp [St.blank] at hd⟩
 
+/-! ## `load` produces a state that satisfies the invariant -/
+
+/-- "members linked" and "pointees of problem cells linked", the two parts of `Reach` that are carried through
+    the stages of `load` (containment comes from `C16_load`) -/
+def LG (st : St) : Prop := InvLinked st ∧ ∀ d ∈ st.cells, GoodCell st d
+
+theorem LG.pExt {st st' : St} (h : LG st) (e : PExt st st') : LG st' :=
+  ⟨h.1.ext e.toLink, fun d hd => by
+    have : st'.cells = st.cells := e.members .cell
+    rw [this] at hd
+    exact (h.2 d hd).pExt e⟩
+
+theorem updatePointersP_ext (c : ObjId) : ∀ (t : PHS) (st : St), Ext st (updatePointersP c t st).1.1 := by
+  intro t
+  induction t with
+  | leaf ic n side =>
+    intro st
+    simp only [updatePointersP]
+    cases ic with
+    | true =>
+      simp only [if_true]
+      split
+      · exact Ext.refl st
+      · rename_i d _
+        dsimp only
+        split
+        · exact Ext.refl st
+        · exact (cellCompAppend_spec st c d).1
+    | false =>
+      simp only [Bool.false_eq_true, if_false]
+      split
+      · exact Ext.refl st
+      · rename_i s _
+        dsimp only
+        split
+        · exact Ext.refl st
+        · exact (cellSurfAppend_spec st c s).1
+  | compl l ih =>
+    intro st
+    have := ih st
+    simp only [updatePointersP]
+    generalize updatePointersP c l st = r at this ⊢
+    obtain ⟨⟨st1, e⟩, og⟩ := r
+    cases e <;> cases og <;> exact this
+  | bin u l r ihl ihr =>
+    intro st
+    have h1 := ihl st
+    simp only [updatePointersP]
+    generalize updatePointersP c l st = r1 at h1 ⊢
+    obtain ⟨⟨st1, e⟩, og⟩ := r1
+    cases e with
+    | some err => cases og <;> exact h1
+    | none =>
+      cases og with
+      | none => exact h1
+      | some l' =>
+        dsimp only
+        have h2 := ihr st1
+        generalize updatePointersP c r st1 = r2 at h2 ⊢
+        obtain ⟨⟨st2, e2⟩, og2⟩ := r2
+        cases e2 <;> cases og2 <;> exact h1.trans h2
+
+/-- an `updCell` on cell `c` that keeps the link flag: members and links as before; a cell stays good if it is
+    another cell, or if the new record of `c` is good -/
+theorem LG.updCell {st : St} (h : LG st) (c : ObjId) (f : CellSt → CellSt)
+    (hl : (f (st.cellOf c)).link = (st.cellOf c).link)
+    (hg : c ∈ st.cells → GoodCell (st.updCell c f) c) : LG (st.updCell c f) := by
+  refine ⟨h.1.ext (linkExt_updCell st c f (fun x => by rw [hl]; exact x)), fun d hd => ?_⟩
+  by_cases hdc : d = c
+  · subst hdc; exact hg hd
+  · exact (h.2 d hd).mono (by simp [updCell_cellOf, hdc]) (fun _ hx => hx) (fun _ hx => hx) (fun _ hx => hx)
+
+theorem mem_linked_of_firstWith {st : St} (h : InvLinked st) (k : Kind) (n : Int) (o : ObjId)
+    (hf : firstWith (st.num k) n (st.members k) = some o) : st.linked k o = true :=
+  h k o (firstWith_some _ _ _ _ hf).1
+
+theorem resolveMaterial_lg (st : St) (c : ObjId) (n : Int) (h : LG st) : LG (resolveMaterial st c n).1 := by
+  unfold resolveMaterial
+  dsimp only
+  have h0 : LG (st.updCell c (fun cs => { cs with oldMat := n })) :=
+    h.updCell c _ rfl (fun hc => (h.2 c hc).mono (by simp) (fun _ hx => hx) (fun _ hx => hx) (fun _ hx => hx))
+  split
+  · split
+    · rename_i m hm
+      refine h0.updCell c _ rfl (fun hc => ?_)
+      have hg := h0.2 c hc
+      have hml : st.mlink m = true := mem_linked_of_firstWith h.1 .material n m hm
+      refine ⟨by simpa using hg.1, fun s hs => hg.2.1 s (by simpa using hs), fun m' hm' => ?_,
+        fun u hu => hg.2.2.2 u (by simpa using hu)⟩
+      have : m = m' := by simpa using hm'
+      subst this
+      exact hml
+    · exact h0
+  · refine h0.updCell c _ rfl (fun hc => ?_)
+    have hg := h0.2 c hc
+    exact ⟨by simpa using hg.1, fun s hs => hg.2.1 s (by simpa using hs), fun m' hm' => by simp at hm',
+      fun u hu => hg.2.2.2 u (by simpa using hu)⟩
+
+theorem cellUpdatePointers_lg (st : St) (c : ObjId) (pc : PCell) (h : LG st) :
+    LG (cellUpdatePointers st c pc).1 := by
+  unfold cellUpdatePointers
+  have h1 := resolveMaterial_lg st c pc.mat h
+  generalize resolveMaterial st c pc.mat = r at h1 ⊢
+  obtain ⟨st1, e⟩ := r
+  cases e with
+  | some err => exact h1
+  | none =>
+    dsimp only at h1 ⊢
+    -- new containers, linked like the cell
+    have h2 : LG (st1.updCell c (fun cs => { cs with surfs := [], comps := [], contLinked := cs.link })) := by
+      refine h1.updCell c _ rfl (fun hc => ?_)
+      have hg := h1.2 c hc
+      have hlk : (st1.cellOf c).link = true := h1.1 .cell c hc
+      exact ⟨by simpa using hlk, fun s hs => by simp at hs, fun m hm => hg.2.2.1 m (by simpa using hm),
+        fun u hu => hg.2.2.2 u (by simpa using hu)⟩
+    have h3 := h2.pExt (updatePointersP_ext c pc.geom _).pExt
+    generalize updatePointersP c pc.geom (st1.updCell c (fun cs => { cs with surfs := [], comps := [], contLinked := cs.link })) = up at h3 ⊢
+    obtain ⟨⟨st2, e2⟩, og⟩ := up
+    cases e2 with
+    | some err => cases og <;> exact h3
+    | none =>
+      cases og with
+      | none => exact h3
+      | some g => exact h3.pExt (pExt_updGeom st2 c (some g))
+
+theorem updateAllCells_lg : ∀ (l : List (ObjId × PCell)) (st : St), LG st → LG (updateAllCells l st).1 := by
+  intro l
+  induction l with
+  | nil => intro st h; exact h
+  | cons a t ih =>
+    intro st h
+    obtain ⟨c, pc⟩ := a
+    simp only [updateAllCells]
+    have h1 := cellUpdatePointers_lg st c pc h
+    generalize cellUpdatePointers st c pc = r at h1 ⊢
+    obtain ⟨st1, e⟩ := r
+    cases e with
+    | some err => exact h1
+    | none => exact ih st1 h1
+
+theorem pushUniverses_lg : ∀ (l : List (ObjId × PCell)) (st : St) (nextU : ObjId), LG st →
+    LG (pushUniverses l st nextU).1 := by
+  intro l
+  induction l with
+  | nil => intro st n h; exact h
+  | cons a t ih =>
+    intro st n h
+    obtain ⟨c, pc⟩ := a
+    simp only [pushUniverses]
+    split
+    · rename_i u hu
+      refine ih _ _ (h.updCell c _ rfl (fun hc => ?_))
+      have hg := h.2 c hc
+      have hul : st.ulink u = true := mem_linked_of_firstWith h.1 .universe _ u hu
+      refine ⟨by simpa using hg.1, fun s hs => hg.2.1 s (by simpa using hs),
+        fun m hm => hg.2.2.1 m (by simpa using hm), fun u' hu' => ?_⟩
+      have : u = u' := by simpa using hu'
+      subst this
+      exact hul
+    · -- a new universe: made, linked, appended
+      have h1 : LG { st with unum := upd st.unum n (pc.univ.getD 0), ulink := upd st.ulink n true,
+                             universes := st.universes ++ [n] } := by
+        refine ⟨fun k o ho => ?_, fun d hd => (h.2 d hd).mono ⟨rfl, rfl, rfl, fun hx => hx⟩ (fun _ hx => hx)
+          (fun _ hx => hx) (fun x hx => by show upd st.ulink n true x = true; unfold upd; split <;> first | rfl | exact hx)⟩
+        cases k
+        · exact h.1 .cell o ho
+        · exact h.1 .surface o ho
+        · exact h.1 .material o ho
+        · show upd st.ulink n true o = true
+          unfold upd
+          split
+          · rfl
+          · rename_i hne
+            have ho' : o ∈ st.universes ++ [n] := ho
+            rcases List.mem_append.mp ho' with ho1 | ho1
+            · exact h.1 .universe o ho1
+            · simp only [List.mem_singleton] at ho1; exact absurd ho1 hne
+        · exact h.1 .transform o ho
+      refine ih _ _ (h1.updCell c _ rfl (fun hc => ?_))
+      have hg := h1.2 c hc
+      refine ⟨by simpa using hg.1, fun s hs => hg.2.1 s (by simpa using hs),
+        fun m hm => hg.2.2.1 m (by simpa using hm), fun u' hu' => ?_⟩
+      have : n = u' := by simpa using hu'
+      subst this
+      show upd st.ulink n true n = true
+      simp [upd]
+
+theorem pushFills_lg : ∀ (l : List (ObjId × PCell)) (st : St), LG st → LG (pushFills l st).1 := by
+  intro l
+  induction l with
+  | nil => intro st h; exact h
+  | cons a t ih =>
+    intro st h
+    obtain ⟨c, pc⟩ := a
+    simp only [pushFills]
+    split
+    · exact ih st h
+    · split
+      · refine ih _ (h.updCell c _ rfl (fun hc => ?_))
+        have hg := h.2 c hc
+        exact ⟨by simpa using hg.1, fun s hs => hg.2.1 s (by simpa using hs),
+          fun m hm => hg.2.2.1 m (by simpa using hm), fun u hu => hg.2.2.2 u (by simpa using hu)⟩
+      · exact h
+
+theorem appendAll_reach (k : Kind) : ∀ (l : List ObjId) (st : St), Reach st → Reach (appendAll k l st).1 := by
+  intro l
+  induction l with
+  | nil => intro st h; exact h
+  | cons a t ih =>
+    intro st h
+    simp only [appendAll]
+    have h1 : Reach (collAppend st k a).1 := C16_step st (.append k a) h
+    generalize collAppend st k a = r at h1 ⊢
+    obtain ⟨st1, e⟩ := r
+    cases e with
+    | some err => exact h1
+    | none => exact ih st1 h1
+
+theorem appendAll_uniqS (k : Kind) (l : List ObjId) (st : St) (h : UniqS st) : UniqS (appendAll k l st).1 :=
+  appendAll_uniq k l st h
+
+/-- geometry of the cell objects that are not in the file stays what it was -/
+theorem appendAll_sameCells (k : Kind) : ∀ (l : List ObjId) (st : St), Same st (appendAll k l st).1 := by
+  intro l
+  induction l with
+  | nil => intro st; exact Same.refl st
+  | cons a t ih =>
+    intro st
+    simp only [appendAll]
+    have h1 : Same st (collAppend st k a).1 := same_step st (.append k a) trivial
+    generalize collAppend st k a = r at h1 ⊢
+    obtain ⟨st1, e⟩ := r
+    cases e with
+    | some err => exact h1
+    | none => exact h1.trans (ih st1)
+
+/-- **C16_init** — every state that the model's `load` produces from the empty pool satisfies `Reach`:
+    containment for every cell object (exactly, for the cells of the file: `C16_load`), every member of the five
+    collections linked, and the surfaces, material and universe of every cell of the problem linked. -/
+theorem C16_init (cnum snum mnum unum tnum : ObjId → Int) (strans : ObjId → Option ObjId)
+    (pcs : List PCell) (nS nM nT : Nat) (nextU : ObjId)
+    (h : (load (St.blank cnum snum mnum unum tnum strans) pcs nS nM nT nextU).1.2 = none) :
+    Reach (load (St.blank cnum snum mnum unum tnum strans) pcs nS nM nT nextU).1.1 := by
+  have hblank := C16_reach_blank cnum snum mnum unum tnum strans
+  have hu : UniqS (St.blank cnum snum mnum unum tnum strans) := by simp [UniqS, St.blank]
+  -- containment: the cells of the file by `C16_load`; every other cell object still has no geometry
+  have hexact := C16_load _ pcs nS nM nT nextU hu h
+  generalize hst : St.blank cnum snum mnum unum tnum strans = st at *
+  have hgeom0 : ∀ c, (st.cellOf c).geom = none := by intro c; rw [← hst]; rfl
+  unfold load at h hexact ⊢
+  dsimp only at h hexact ⊢
+  have r1 := appendAll_reach .cell (List.range pcs.length) st hblank
+  have s1 := appendAll_sameCells .cell (List.range pcs.length) st
+  have u1 := appendAll_uniq .cell (List.range pcs.length) st hu
+  generalize appendAll .cell (List.range pcs.length) st = a1 at r1 s1 u1 h hexact ⊢
+  obtain ⟨st1, e1⟩ := a1
+  cases e1 with
+  | some err => cases h
+  | none =>
+    dsimp only at r1 s1 u1 h hexact ⊢
+    have r2 := appendAll_reach .surface (List.range nS) st1 r1
+    have s2 := appendAll_sameCells .surface (List.range nS) st1
+    have u2 := appendAll_uniq .surface (List.range nS) st1 u1
+    generalize appendAll .surface (List.range nS) st1 = a2 at r2 s2 u2 h hexact ⊢
+    obtain ⟨st2, e2⟩ := a2
+    cases e2 with
+    | some err => cases h
+    | none =>
+      dsimp only at r2 s2 u2 h hexact ⊢
+      have r3 := appendAll_reach .material (List.range nM) st2 r2
+      have s3 := appendAll_sameCells .material (List.range nM) st2
+      have u3 := appendAll_uniq .material (List.range nM) st2 u2
+      generalize appendAll .material (List.range nM) st2 = a3 at r3 s3 u3 h hexact ⊢
+      obtain ⟨st3, e3⟩ := a3
+      cases e3 with
+      | some err => cases h
+      | none =>
+        dsimp only at r3 s3 u3 h hexact ⊢
+        have r4 := appendAll_reach .transform (List.range nT) st3 r3
+        have s4 := appendAll_sameCells .transform (List.range nT) st3
+        have u4 := appendAll_uniq .transform (List.range nT) st3 u3
+        generalize appendAll .transform (List.range nT) st3 = a4 at r4 s4 u4 h hexact ⊢
+        obtain ⟨st4, e4⟩ := a4
+        cases e4 with
+        | some err => cases h
+        | none =>
+          dsimp only at r4 s4 u4 h hexact ⊢
+          have lg5 : LG { st4 with dataM := List.range nM, dataT := List.range nT } := ⟨r4.linked, r4.good⟩
+          have u5 : UniqS { st4 with dataM := List.range nM, dataT := List.range nT } := u4
+          have hids : (((List.range pcs.length).zip pcs).map Prod.fst) = List.range pcs.length :=
+            List.map_fst_zip (by simp)
+          have lg6 := updateAllCells_lg ((List.range pcs.length).zip pcs) _ lg5
+          generalize hup : updateAllCells ((List.range pcs.length).zip pcs)
+            { st4 with dataM := List.range nM, dataT := List.range nT } = r5 at lg6 h hexact ⊢
+          obtain ⟨st6, e6⟩ := r5
+          cases e6 with
+          | some err => cases h
+          | none =>
+            dsimp only at lg6 h hexact ⊢
+            have hsp := updateAllCells_spec _ _ st6 hup u5 (by rw [hids]; exact List.nodup_range)
+            have lg7 := pushUniverses_lg ((List.range pcs.length).zip pcs) st6 nextU lg6
+            have lg8 := pushFills_lg ((List.range pcs.length).zip pcs) _ lg7
+            have p1 := pushUniverses_same ((List.range pcs.length).zip pcs) st6 nextU
+            have p2 := pushFills_same ((List.range pcs.length).zip pcs)
+              (pushUniverses ((List.range pcs.length).zip pcs) st6 nextU).1
+            refine ⟨fun c => ?_, lg8.1, lg8.2⟩
+            by_cases hc : c < pcs.length
+            · obtain ⟨g, hg, ha, hs, hcm⟩ := hexact c hc
+              intro g' hg'
+              rw [hg] at hg'
+              cases hg'
+              exact ⟨ha, fun s hs' => (hs s).mpr hs', fun d hd => (hcm d).mpr hd⟩
+            · intro g hg
+              exfalso
+              have hnot : c ∉ ((List.range pcs.length).zip pcs).map Prod.fst := by
+                rw [hids]; simpa using hc
+              have e6 := (hsp.2.1 c hnot).1
+              have e4 : (st4.cellOf c).geom = (st.cellOf c).geom :=
+                (((s1.trans s2).trans s3).trans s4 c).1
+              rw [((p1.trans p2) c).1, e6] at hg
+              have : (st4.cellOf c).geom = some g := hg
+              rw [e4, hgeom0 c] at this
+              cases this
+
+/-! ## what the invariant gives: the reverse look-ups are exact in every reachable state -/
+
+/-- **C16_exact_surface** — in a state that satisfies `Reach`, `surface.cells` is exactly the cells of the problem
+    that hold the surface (no link hypothesis: a surface a problem cell holds is linked). -/
+theorem C16_exact_surface (st : St) (h : Reach st) (s d : ObjId) :
+    d ∈ surfaceCells st s ↔ d ∈ st.cells ∧ s ∈ (st.cellOf d).surfs := by
+  rw [C16_reverse_surface_exact]
+  exact ⟨fun ⟨_, hd, hs⟩ => ⟨hd, hs⟩, fun ⟨hd, hs⟩ => ⟨(h.good d hd).2.1 s hs, hd, hs⟩⟩
+
+/-- … in particular every cell of the problem whose *geometry* uses `s` -/
+theorem C16_exact_surface_geometry (st : St) (h : Reach st) (s d : ObjId) (g : HS) (hd : d ∈ st.cells)
+    (hg : (st.cellOf d).geom = some g) (hs : s ∈ g.surfs) : d ∈ surfaceCells st s :=
+  (C16_exact_surface st h s d).mpr ⟨hd, (h.contain d g hg).2.1 s hs⟩
+
+/-- **C16_exact_material** -/
+theorem C16_exact_material (st : St) (h : Reach st) (m d : ObjId) :
+    d ∈ materialCells st m ↔ d ∈ st.cells ∧ (st.cellOf d).mat = some m := by
+  rw [C16_reverse_material]
+  exact ⟨fun ⟨_, hd, hm⟩ => ⟨hd, hm⟩, fun ⟨hd, hm⟩ => ⟨(h.good d hd).2.2.1 m hm, hd, hm⟩⟩
+
+/-- **C16_exact_universe** -/
+theorem C16_exact_universe (st : St) (h : Reach st) (u d : ObjId) :
+    d ∈ universeCells st u ↔ d ∈ st.cells ∧ (st.cellOf d).univ = some u := by
+  rw [C16_reverse_universe]
+  exact ⟨fun ⟨_, hd, hu⟩ => ⟨hd, hu⟩, fun ⟨hd, hu⟩ => ⟨(h.good d hd).2.2.2 u hu, hd, hu⟩⟩
+
+/-- named exclusion (known finding C16-F2a): the complemented cell itself is linked to the problem — it is for
+    every cell of the problem and for every cell a problem cell started to complement while it was in the problem -/
+def CompLinked (st : St) (c : ObjId) : Prop := (st.cellOf c).link = true
+
+/-- **C16_exact_complement** -/
+theorem C16_exact_complement (st : St) (c d : ObjId) (hc : CompLinked st c) :
+    d ∈ cellsComplementing st c ↔ d ∈ st.cells ∧ d ≠ c ∧ c ∈ (st.cellOf d).comps := by
+  rw [C16_reverse_complement]
+  exact ⟨fun ⟨_, h⟩ => h, fun h => ⟨hc, h⟩⟩
+
+theorem compLinked_of_member (st : St) (h : Reach st) (c : ObjId) (hc : c ∈ st.cells) : CompLinked st c :=
+  h.linked .cell c hc
+
+/-- named exclusion (known finding C16-F3): the cell has a universe (every cell that was read has; a `Cell()`
+    made from scratch has none until one is assigned) -/
+def HasUniverse (st : St) (d : ObjId) : Prop := ∃ u, (st.cellOf d).univ = some u
+
+/-- **C16_exact_partition** — every cell of the problem that has a universe is in exactly one universe's
+    `.cells` (no `UnivOK` hypothesis any more: the universe is linked by the invariant). -/
+theorem C16_exact_partition (st : St) (h : Reach st) (d : ObjId) (hd : d ∈ st.cells) (hu : HasUniverse st d) :
+    ∃ u, d ∈ universeCells st u ∧ ∀ u', d ∈ universeCells st u' → u' = u := by
+  obtain ⟨u, hu⟩ := hu
+  refine ⟨u, (C16_exact_universe st h u d).mpr ⟨hd, hu⟩, fun u' h' => ?_⟩
+  have := ((C16_exact_universe st h u' d).mp h').2
+  rw [hu] at this
+  cases this
+  rfl
+
+/-- **C16_main** — the property over inputs and histories: read any file (the model's `load` from the empty pool
+    does not raise), apply any sequence of the modelled operations: the resulting state satisfies `Reach`, hence
+    containment and the exact reverse look-ups above. -/
+theorem C16_main (cnum snum mnum unum tnum : ObjId → Int) (strans : ObjId → Option ObjId)
+    (pcs : List PCell) (nS nM nT : Nat) (nextU : ObjId) (ops : List Op)
+    (h : (load (St.blank cnum snum mnum unum tnum strans) pcs nS nM nT nextU).1.2 = none) :
+    Reach (run (load (St.blank cnum snum mnum unum tnum strans) pcs nS nM nT nextU).1.1 ops) :=
+  C16_reachable ops _ (C16_init cnum snum mnum unum tnum strans pcs nS nM nT nextU h)
+
+/-- non-vacuity: the two-cell file loads; after an edit history both cells have a universe, cell 0 is linked and
+    complemented by cell 1, and the reverse look-ups are non-empty -/
+example :
+    let st := run (load (demo false) demoFile 2 0 0 0).1.1
+      [.setGeometry 0 (.bin true (.leaf false 2 true none) (.leaf false 0 false none) none), .setMaterial 1 (some 2)]
+    (load (demo false) demoFile 2 0 0 0).1.2 = none ∧ st.cells = [0, 1] ∧
+    (st.cellOf 0).univ = some 0 ∧ (st.cellOf 1).univ = some 1 ∧ (st.cellOf 0).link = true ∧
+    surfaceCells st 2 = [0] ∧ surfaceCells st 0 = [0, 1] ∧ materialCells st 2 = [1] ∧
+    universeCells st 1 = [1] ∧ cellsComplementing st 0 = [1] := by decide
+
 end MontePyVerif.Links
